@@ -59,17 +59,20 @@ CASES = []
 def instances(tier, seed):
     import random
     out = []
-    T = 300 if tier == "quick" else 1200
+    T = 300 if tier == "quick" else 600
     L = 3 if tier == "quick" else 4
     for thr in ("default", 1, None, 0):
         for sig in (False, True):
             if tier == "quick" and sig and thr != "default":
                 continue
             for first in range(len(STEPS)):
-                out.append({"name": "hist-thr%s-%s-first%02d-%s" % (thr, "sig" if sig else "nosig", first, "%s:%s" % STEPS[first]),
+                out.append({"name": "hist%s-thr%s-%s-first%02d-%s" % ("" if tier == "quick" else "4", thr, "sig" if sig else "nosig", first, "%s:%s" % STEPS[first]),
                             "fn": "history", "timeout": T, "cost": 2,
                             "params": {"thr": thr, "sig": sig, "first": first, "L": L, "seed": seed,
-                                       "limit": (900 if (thr == "default" and not sig) else 250) if tier == "quick" else 30000}})
+                                       "limit": (900 if (thr == "default" and not sig) else 250) if tier == "quick" else 2500}})
+    if tier != "quick":
+        # thorough = the quick instances (all / sampled 3-step histories) + 4-step histories, 2500 seeded ones per instance
+        out = instances("quick", seed) + out
     return out
 
 
